@@ -16,27 +16,28 @@ from pyvc import loader as _loader_mod
 
 # reset(): the five priming loops (sources > events, probes > events, fault-schedule events)
 F_CTL = "happysimulator/core/control/control.py"
-_HEAPMOD = [("EventHeap", "_heap"), ("EventHeap", "_primary_event_count")]
+_HEAPMOD = [("EventHeap", "_heap"), ("EventHeap", "_primary_event_count"),
+            ("InMemoryTraceRecorder", "spans")]      # with heap tracing on every push records a span
 for _k in (1, 2, 3, 4, 5):
     loop(F_CTL, "SimulationControl.reset", _k, inv=[], modifies=_HEAPMOD)
 
 # _check_breakpoints: loop 1 evaluates every breakpoint once, loop 2 removes the one-shot ones that fired
-loop(F_CTL, "SimulationControl._check_breakpoints", 1, modifies=[], types={"to_remove": lambda: Seq(Str)}, inv=[
+# (`to_remove` is a list of distinct ids: modelled as an ordered set, pyvc/omap.py - membership is an array read)
+from pyvc.omap import OSeq as _OSeq  # noqa: E402
+loop(F_CTL, "SimulationControl._check_breakpoints", 1, modifies=[], types={"to_remove": lambda: _OSeq(Str)}, inv=[
     ("triggered-if-a-visited-breakpoint-fired", lambda L: _bp1_fired_implies_triggered(L)),
     ("triggered-only-if-a-visited-breakpoint-fired", lambda L: _bp1_triggered_has_witness(L)),
-    ("listed-for-removal-only-fired-one-shots", lambda L: _bp1_listed_sound(L)),
-    ("every-fired-one-shot-is-listed", lambda L: _bp1_listed_complete(L)),
-    ("listed-once", lambda L: _bp_listed_distinct(L))])
+    ("listed-for-removal-exactly-the-visited-fired-one-shots", lambda L: _bp1_listed(L))])
 loop(F_CTL, "SimulationControl._check_breakpoints", 2, modifies=[("SimulationControl", "_breakpoints")], inv=[
-    ("already-removed", lambda L: _bp2_removed(L)),
-    ("still-to-remove-are-present", lambda L: _bp2_pending_present(L)),
-    ("others-kept-unchanged", lambda L: _bp2_kept(L)),
-    ("only-listed-removed", lambda L: _bp2_only_listed(L))])
+    ("exactly-the-visited-listed-ids-are-removed-the-rest-unchanged", lambda L: _bp2_removed(L))])
 # hooks: every registered hook is called exactly once, in registration order, with the delivered event / new time
 loop(F_CTL, "SimulationControl._notify_event_processed", 1, modifies=[], inv=[
     ("this-iteration-called-exactly-the-i-th-registered-hook-with-the-event", lambda L: _hook_iteration(L, "_event_hooks", "event"))])
 loop(F_CTL, "SimulationControl._notify_time_advance", 1, modifies=[], inv=[
     ("this-iteration-called-exactly-the-i-th-registered-hook-with-the-time", lambda L: _hook_iteration(L, "_time_hooks", "new_time"))])
+
+# tracing: one "simulation.schedule" span per produced event (second loop of _push_new_events; the first is DEBUG logging)
+loop("happysimulator/core/simulation.py", "Simulation._push_new_events", 2, inv=[], modifies=[("InMemoryTraceRecorder", "spans")])
 
 _n0 = len(_spec_mod.TASKS)
 import specs.C01 as c01  # noqa: E402   (engine declarations + loop contracts; its tasks are dropped)
@@ -62,10 +63,39 @@ PROPERTY = {
     ],
 }
 
+# =============================================================================== trace recorders (part F)
+# `_trace` is either the NullTraceRecorder (tracing off) or a real recorder; InMemoryTraceRecorder stands for every
+# real recorder (its record() is proved in part F to write nothing but its own span list and never to raise).
+from happysimulator.instrumentation.recorder import NullTraceRecorder, InMemoryTraceRecorder  # noqa: E402
+from pyvc.heap import CLASS_OF as _CLASS_OF, class_id as _class_id  # noqa: E402
+
+RECORDER = Ref(NullTraceRecorder, variants=[NullTraceRecorder, InMemoryTraceRecorder])
+cls(InMemoryTraceRecorder, fields={"spans": Seq(Any)})
+
+
+def _flag_says_whether_a_real_recorder_is_attached(o):
+    """as both constructors set it: _tracing_enabled == not isinstance(_trace, NullTraceRecorder)"""
+    return mk_bool(to_z3_bool(o._tracing_enabled) == (_CLASS_OF(field_term(o, "_trace")) != _class_id(NullTraceRecorder)))
+
+
+cls(EventHeap, fields={"_trace": RECORDER}, inv=[("tracing-flag-iff-real-recorder", _flag_says_whether_a_real_recorder_is_attached)])
+cls(Simulation, fields={"_trace": RECORDER}, inv=[("tracing-flag-iff-real-recorder", _flag_says_whether_a_real_recorder_is_attached)])
+
 # =============================================================================== A. control state
 HOOKCB = Fn(None, "control_hook")
 cls(Breakpoint, fields={"one_shot": Bool})
-BPMAP = Map(Str, Ref(Breakpoint))
+
+
+class AnyBreakpoint:
+    """stands for ANY object that satisfies the Breakpoint protocol (typing.Protocol classes with data members do
+    not support issubclass(), which the engine's reference typing needs): a `one_shot` flag and `should_break`"""
+
+    def should_break(self, context) -> bool:
+        raise NotImplementedError
+
+
+cls(AnyBreakpoint, fields={"one_shot": Bool})
+BPMAP = Map(Str, Ref(AnyBreakpoint))
 HOOKMAP = Map(Str, HOOKCB, ordered=True)        # dicts: hooks run in registration (insertion) order
 cls(SimulationControl, fields={"_sim": Ref(Simulation), "_pause_requested": Bool, "_steps_remaining": Opt(Int),
                                "_breakpoints": BPMAP, "_event_hooks": HOOKMAP, "_time_hooks": HOOKMAP})
@@ -96,11 +126,26 @@ def _sim_frame_ok(s):
 # =============================================================================== B. instrumented loop with control
 stub_of(SimulationControl, "_should_pause", returns=Bool, modifies=[], ensures=[
     lambda s: iff(s.result, s.self._pause_requested | steps_le0(s.self))])
-stub_of(SimulationControl, "_notify_time_advance", modifies=[], ensures=[])
-stub_of(SimulationControl, "_notify_event_processed", modifies=["_steps_remaining"], ensures=[
+# (the three callee contracts below are the loop's view of the notifiers; each is implied by the contract PROVED
+#  for the function in parts D/E - frame + step budget - and is re-registered at the end of the file because the
+#  fn() declarations there take the CONTRACTS slot)
+_ST_NTA = stub_of(SimulationControl, "_notify_time_advance", modifies=[], ensures=[])
+_ST_NEP = stub_of(SimulationControl, "_notify_event_processed", modifies=["_steps_remaining"], ensures=[
     lambda s: (s.self._steps_remaining is None) if s.old(s.self)._steps_remaining is None else
     ((s.self._steps_remaining is not None) and s.self._steps_remaining == s.old(s.self)._steps_remaining - 1)])
-stub_of(SimulationControl, "_check_breakpoints", returns=Bool, modifies=["_breakpoints"], ensures=[])
+def _bp_checked_right_after_the_delivery(s):
+    """what the breakpoints are shown (part D: context == engine state) is the state right after THIS delivery:
+    last event == the event just invoked, current time == its timestamp"""
+    tr = G("trace") if has_G("trace") else []
+    i = _last(tr, "Event.invoke")
+    if i is None:
+        return False
+    ev, sim = tr[i][1]["self"], G("sim")
+    return same(s.self._sim, sim) & same(sim._last_event, ev) & same_instant(sim._current_time, ev.time)
+
+
+_ST_CB = stub_of(SimulationControl, "_check_breakpoints", returns=Bool, modifies=["_breakpoints"], ensures=[], requires=[
+    ("breakpoints-see-the-state-right-after-this-delivery", _bp_checked_right_after_the_delivery)])
 
 
 def _names(tr):
@@ -113,7 +158,8 @@ def iteration_shape(L):
     In particular the control is told about an event iff it was delivered, after the delivery."""
     tr = G("trace") if has_G("trace") else []
     names = [n for n in _names(tr) if n not in ("EventHeap.has_events", "EventHeap.has_primary_events",
-                                                "SimulationControl._notify_time_advance", "EventHeap.set_current_time")]
+                                                "SimulationControl._notify_time_advance", "EventHeap.set_current_time",
+                                                "InMemoryTraceRecorder.record")]    # spans are not steps of the run
     if not names:
         return True
     ok = names[0] == "SimulationControl._should_pause"
@@ -133,22 +179,46 @@ def iteration_shape(L):
     return ok and told == 0 and checked == 0 and rest in ([], ["EventHeap.pop"])
 
 
+def counters_step(L):
+    """one iteration counts exactly what it did, in every observation mode (control, hooks, tracing on or off):
+    events_processed +1 iff an event was delivered, events_cancelled +1 iff a cancelled event was popped"""
+    if L.loop_phase != "step":
+        return True
+    tr = G("trace") if has_G("trace") else []
+    names = _names(tr)
+    h = L.at_head(L.self)
+    d = L.self._events_processed - h._events_processed
+    c = L.self._events_cancelled - h._events_cancelled
+    if "Event.invoke" in names:
+        return (d == 1) & (c == 0)
+    if "EventHeap.pop" in names:
+        ev = tr[names.index("EventHeap.pop")][2]
+        return (d == 0) & (c == ite(ev._cancelled, 1, 0))
+    return (d == 0) & (c == 0)
+
+
 _ctrl_loop = LoopSpec(
     inv=[("clock-equals-current-time", lambda L: same_instant(L.self._clock._current_time, L.self._current_time)),
          ("time-never-decreases", lambda L: Not(spec_lt(L.self._current_time, L.old(L.self)._current_time))),
          ("heap-is-the-simulations", lambda L: same(L.heap, L.self._event_heap) & same(L.control, L.self._control)),
-         ("heap-tracing-off", lambda L: Not(L.heap._tracing_enabled)),
+         ("the-control-observes-this-simulation", lambda L: same(L.control._sim, L.self)),
+         # tracing is SYMBOLIC here (on or off, heap tracing on or off): every clause of this contract - the C01
+         # delivery obligations at the call sites of invoke/update/push/pop included - is discharged for both
+         ("recorders-stay-as-attached", lambda L: _flag_says_whether_a_real_recorder_is_attached(L.self)
+          & _flag_says_whether_a_real_recorder_is_attached(L.heap)),
          ("still-running", lambda L: L.self._is_running & Not(L.self._is_paused)),
          ("pushed-what-invoke-returned", pushed_what_invoke_returned),
-         ("iteration-shape-control-sees-exactly-the-deliveries", iteration_shape)],
-    modifies="world", keeps=LOOP_CONST)
+         ("iteration-shape-control-sees-exactly-the-deliveries", iteration_shape),
+         ("counts-exactly-the-deliveries-and-the-cancelled-pops", counters_step)],
+    modifies="world", keeps=LOOP_CONST + [("Simulation", "_trace")])
 _ctrl_loop.native_if_concrete = False
 _loader_mod.LOOP_SPECS[(F_SIM, "Simulation._run_loop", 1)] = _ctrl_loop
-c01._INVOKE.keeps = c01._INVOKE.keeps + [("SimulationControl", f) for f in CTRL_FIELDS + ["_sim"]]
+c01._INVOKE.keeps = c01._INVOKE.keeps + [("SimulationControl", f) for f in CTRL_FIELDS + ["_sim"]] + [("Simulation", "_trace")]
 
 CTRL_USES = LOOP_USES + [(Simulation, "_build_summary"), (EventHeap, "set_current_time"),
                          (SimulationControl, "_should_pause"), (SimulationControl, "_notify_time_advance"),
-                         (SimulationControl, "_notify_event_processed"), (SimulationControl, "_check_breakpoints")]
+                         (SimulationControl, "_notify_event_processed"), (SimulationControl, "_check_breakpoints"),
+                         (InMemoryTraceRecorder, "record")]
 
 
 def _paused_or_finished(s):
@@ -176,7 +246,7 @@ def _exit_reason_ctrl(s):
 
 fn(Simulation, "_run_loop", label="control-attached", uses=CTRL_USES, setup=_sim_setup,
    focus=lambda s: [s.self._control],
-   requires=[lambda s: s.self._control is not None, lambda s: Not(s.self._tracing_enabled),
+   requires=[lambda s: s.self._control is not None,
              lambda s: s.self._is_running & Not(s.self._is_paused), lambda s: wf_instant(s.self._end_time),
              lambda s: same(s.self._control._sim, s.self)],
    ensures=[("returns-paused-or-for-a-stated-reason", _exit_reason_ctrl),
@@ -291,8 +361,6 @@ import happysimulator.core.event_heap as _ehm  # noqa: E402
 from pyvc import ctx as _pctx  # noqa: E402
 _ehm.count = lambda *a: (c01._mk_count(*a) if _pctx.active() else _it.count(*a))     # EventHeap() inside reset
 
-from happysimulator.instrumentation.recorder import NullTraceRecorder  # noqa: E402
-cls(EventHeap, fields={"_trace": Ref(NullTraceRecorder)})
 cls(Source, fields={})
 cls(FaultSchedule, fields={})
 cls(Simulation, fields={"_sources": Seq(Ref(Source)), "_probes": Seq(Ref(Source)), "_fault_schedule": OptRef(FaultSchedule),
@@ -327,8 +395,14 @@ def _reset_reprimes(s):
 
 fn(SimulationControl, "reset", uses=[(Source, "start"), (FaultSchedule, "start"), (Simulation, "_replay_pre_run_events")],
    setup=lambda s: [s.self._sim._clock],
-   requires=[lambda s: wf_instant(s.self._sim._start_time), lambda s: Not(s.self._sim._tracing_enabled)],
+   requires=[lambda s: wf_instant(s.self._sim._start_time),      # tracing on or off
+             lambda s: _flag_says_whether_a_real_recorder_is_attached(s.self._sim)],
    ensures=[("clock-counters-and-flags-back-at-start", _reset_post),
+            ("the-fresh-heap-is-observed-exactly-as-the-old-one", lambda s: iff(s.self._sim._event_heap._tracing_enabled,
+                                                                                 s.self._sim._tracing_enabled)
+             & mk_bool(field_term(s.self._sim._event_heap, "_trace") == field_term(s.self._sim, "_trace"))
+             & _flag_says_whether_a_real_recorder_is_attached(s.self._sim._event_heap)
+             & unchanged(s, s.self._sim, "_trace", "_tracing_enabled")),
             ("re-primes-pre-run-events-and-the-fault-schedule", _reset_reprimes),
             ("control-state-cleared", lambda s: Not(s.self._pause_requested) & (s.self._steps_remaining is None))],
    raises={RuntimeError: [("only-while-actively-running", lambda s: s.old(s.self._sim)._is_running & Not(s.old(s.self._sim)._is_paused))]})
@@ -389,7 +463,7 @@ fn(ConditionBreakpoint, "should_break", args=CTXARG,
 # should_break is user-extensible (Protocol): inside ONE check the context is fixed, so its answer is a function
 # SB of the breakpoint object; the frame (modifies nothing) is the purity assumption listed in PROPERTY.
 SB = z3.Function("should_break_answer", z3.IntSort(), z3.BoolSort())
-stub_of(Breakpoint, "should_break", returns=Bool, modifies=[], requires=[
+stub_of(AnyBreakpoint, "should_break", returns=Bool, modifies=[], requires=[
     ("context-shows-the-engine-state", lambda s: _context_is_engine_state(s))],
     ensures=[lambda s: iff(s.result, mk_bool(SB(s.self._ref)))])
 
@@ -413,16 +487,32 @@ def _bpnow(o):
 
 def _one_shot(ref):
     c = _pctx_cur()
-    return z3.Select(c.heap.array(("Breakpoint", "one_shot"), Bool), ref)
+    return z3.Select(c.heap.array(("AnyBreakpoint", "one_shot"), Bool), ref)
 
 
-def _tr(L):
+def _listed_dom(L):
+    """membership array of the local `to_remove` (a Python [] before the first loop)"""
     tr = L.to_remove
-    return tr.term if isinstance(tr, SymList) else Seq(Str).unwrap(list(tr))
+    if isinstance(tr, list):
+        assert not tr
+        return z3.K(z3.StringSort(), z3.BoolVal(False))
+    return tr._ty.dt.dom(tr.term)
 
 
 def _zb(x):
     return to_z3_bool(x)
+
+
+def _ival(i):
+    return i.t if hasattr(i, "t") else z3.IntVal(i)
+
+
+def _some_fired(flag, among, val0):
+    """flag ==> some breakpoint of the set `among` fired (the one existential of this contract: a plain z3 Exists)"""
+    if isinstance(flag, bool) and not flag:
+        return True
+    k = z3.Const("fired_k", z3.StringSort())
+    return mk_bool(z3.Implies(_zb(flag), z3.Exists([k], z3.And(z3.Select(among, k), SB(z3.Select(val0, k))))))
 
 
 def _bp1_fired_implies_triggered(L):
@@ -433,75 +523,30 @@ def _bp1_fired_implies_triggered(L):
 
 def _bp1_triggered_has_witness(L):
     dom0, val0, _ = _bp0(L)
-    vis = L.visited.arr
-    return implies(L.triggered, exists(Str, lambda k: mk_bool(z3.And(z3.Select(vis, k.t), SB(z3.Select(val0, k.t))))))
+    return _some_fired(L.triggered, L.visited.arr, val0)
 
 
-def _in_range(j, tr, lo=0):
-    return z3.And(j >= lo, j < z3.Length(tr))
-
-
-def _bp1_listed_sound(L):
+def _bp1_listed(L):
     dom0, val0, _ = _bp0(L)
-    vis, tr = L.visited.arr, _tr(L)
-    return forall(Int, lambda j: mk_bool(z3.Implies(_in_range(j.t, tr), z3.And(
-        z3.Select(vis, tr[j.t]), SB(z3.Select(val0, tr[j.t])), _one_shot(z3.Select(val0, tr[j.t]))))))
-
-
-def _listed(tr, k, hi=None):
-    j = z3.Int("j_listed")
-    return z3.Exists([j], z3.And(j >= 0, j < (z3.Length(tr) if hi is None else hi), tr[j] == k))
-
-
-def _bp1_listed_complete(L):
-    dom0, val0, _ = _bp0(L)
-    vis, tr = L.visited.arr, _tr(L)
-    return forall(Str, lambda k: mk_bool(z3.Implies(z3.And(z3.Select(vis, k.t), SB(z3.Select(val0, k.t)), _one_shot(z3.Select(val0, k.t))),
-                                                    _listed(tr, k.t))))
-
-
-def _bp_listed_distinct(L):
-    tr = _tr(L)
-    return forall(Int, lambda a: forall(Int, lambda b: mk_bool(z3.Implies(
-        z3.And(a.t >= 0, a.t < b.t, b.t < z3.Length(tr)), tr[a.t] != tr[b.t]))))
-
-
-def _ival(i):
-    return i.t if hasattr(i, "t") else z3.IntVal(i)
+    vis, R = L.visited.arr, _listed_dom(L)
+    return forall(Str, lambda k: mk_bool(z3.Select(R, k.t) == z3.And(
+        z3.Select(vis, k.t), SB(z3.Select(val0, k.t)), _one_shot(z3.Select(val0, k.t)))))
 
 
 def _bp2_removed(L):
-    dom, _, _ = _bpnow(L.self)
-    tr, i = L.seq.term, _ival(L.i)
-    return forall(Int, lambda j: mk_bool(z3.Implies(z3.And(j.t >= 0, j.t < i), z3.Not(z3.Select(dom, tr[j.t])))))
-
-
-def _bp2_pending_present(L):
-    dom, _, _ = _bpnow(L.self)
-    tr, i = L.seq.term, _ival(L.i)
-    return forall(Int, lambda j: mk_bool(z3.Implies(z3.And(j.t >= i, j.t < z3.Length(tr)), z3.Select(dom, tr[j.t]))))
-
-
-def _bp2_kept(L):
     dom, val, _ = _bpnow(L.self)
     dom0, val0, _ = _bp0(L)
-    return forall(Str, lambda k: mk_bool(z3.Implies(z3.Select(dom, k.t), z3.And(z3.Select(dom0, k.t),
-                                                                                z3.Select(val, k.t) == z3.Select(val0, k.t)))))
-
-
-def _bp2_only_listed(L):
-    dom, _, _ = _bpnow(L.self)
-    dom0, _, _ = _bp0(L)
-    tr, i = L.seq.term, _ival(L.i)
-    return forall(Str, lambda k: mk_bool(z3.Implies(z3.And(z3.Select(dom0, k.t), z3.Not(z3.Select(dom, k.t))), _listed(tr, k.t, i))))
+    vis = L.visited.arr
+    return forall(Str, lambda k: mk_bool(z3.And(
+        z3.Select(dom, k.t) == z3.And(z3.Select(dom0, k.t), z3.Not(z3.Select(vis, k.t))),
+        z3.Implies(z3.Select(dom, k.t), z3.Select(val, k.t) == z3.Select(val0, k.t)))))
 
 
 def _cb_result(s):
-    """pauses iff some registered breakpoint says so"""
+    """pauses iff some registered breakpoint says so (the `only if` half as: no pause \\/ not all are silent)"""
     dom0, val0, _ = _bpnow(s.old(s.self))
     fwd = forall(Str, lambda k: mk_bool(z3.Implies(z3.And(z3.Select(dom0, k.t), SB(z3.Select(val0, k.t))), _zb(s.result))))
-    bwd = implies(s.result, exists(Str, lambda k: mk_bool(z3.And(z3.Select(dom0, k.t), SB(z3.Select(val0, k.t))))))
-    return fwd & bwd
+    return fwd & _some_fired(s.result, dom0, val0)
 
 
 def _cb_one_shots(s):
@@ -528,7 +573,7 @@ def _cb_setup(s):
     return [s.self._sim._event_heap, s.self._sim._clock]
 
 
-fn(SimulationControl, "_check_breakpoints", uses=[(Breakpoint, "should_break")], setup=_cb_setup,
+fn(SimulationControl, "_check_breakpoints", uses=[(AnyBreakpoint, "should_break")], setup=_cb_setup,
    ensures=[("pauses-iff-some-registered-breakpoint-says-so", _cb_result),
             ("exactly-the-fired-one-shot-breakpoints-are-removed", _cb_one_shots),
             ("writes-only-its-own-breakpoint-map", _cb_frame)])
@@ -551,7 +596,7 @@ def _others_kept(map_field, MT, skip=None):
     return clause
 
 
-fn(SimulationControl, "add_breakpoint", args={"bp": Ref(Breakpoint)}, setup=_cb_setup,
+fn(SimulationControl, "add_breakpoint", args={"bp": Ref(AnyBreakpoint)}, setup=_cb_setup,
    ensures=[("registered-under-the-returned-id", lambda s: contains(s.self._breakpoints, s.result)
              & mk_bool(z3.Select(BPMAP.dt.val(field_term(s.self, "_breakpoints")), Str.unwrap(s.result)) == s.bp._ref)),
             ("other-breakpoints-kept", _others_kept("_breakpoints", BPMAP, lambda s: s.result)),
@@ -656,3 +701,62 @@ fn(SimulationControl, "remove_hook", args={"hook_id": Str}, setup=_cb_setup,
    raises={KeyError: [("only-for-an-unknown-id", lambda s: Not(contains(s.old(s.self)._event_hooks, s.hook_id))
                        & Not(contains(s.old(s.self)._time_hooks, s.hook_id))),
                       ("nothing-changed", lambda s: unchanged(s, s.self) & unchanged(s, s.self._sim))]})
+
+# =============================================================================== F. trace recorder / event tracing
+# From the statement: "a trace recorder or event tracing does not change which events are delivered, their order,
+# their times".  (i) record() of the in-memory recorder appends exactly one span to its own list, for ANY
+# arguments, and never raises; (ii) EventHeap.pop / _push_single satisfy the multiset contract of C01 whether
+# heap tracing is on or off, and tracing writes nothing but the recorder (these two contracts REPLACE the
+# tracing-off ones of C01 as the callee contracts of the loop); (iii) the loop contract of part B is discharged
+# with `_tracing_enabled` symbolic.
+stub_of(InMemoryTraceRecorder, "record", modifies=["spans"], ensures=[
+    lambda s: slen(s.self.spans) == slen(s.old(s.self).spans) + 1])
+
+
+def record_a_span(rec, time, kind, event_id, event_type, extra):
+    """the call shape used by the engine: keyword-only arguments plus free-form data"""
+    if extra is None:
+        return rec.record(time=time, kind=kind, event_id=event_id, event_type=event_type)
+    return rec.record(time=time, kind=kind, event_id=event_id, event_type=event_type, heap_size=extra, scheduled_time=time)
+
+
+def _one_span_appended(s):
+    old, new = seq_term(s.old(s.rec).spans), seq_term(s.rec.spans)
+    return mk_bool(z3.And(z3.Length(new) == z3.Length(old) + 1, z3.PrefixOf(old, new)))
+
+
+fn("specs.C04", "record_a_span", kind="function",
+   args={"rec": Ref(InMemoryTraceRecorder), "time": INSTANT, "kind": Str, "event_id": Opt(Any), "event_type": Opt(Str),
+         "extra": Opt(Int)},
+   ensures=[("appends-exactly-one-span-and-keeps-the-earlier-ones", _one_span_appended),
+            ("returns-nothing", lambda s: s.result is None)])
+
+_C01_POP, _C01_PUSH1 = _spec_mod.CONTRACTS[(EventHeap, "pop")], _spec_mod.CONTRACTS[(EventHeap, "_push_single")]
+_SPANS = ("*", "InMemoryTraceRecorder", "spans")
+
+
+def _heap_tracing_frame(ev_of):
+    def clause(s):
+        h = s.self
+        return unchanged(s, ev_of(s)) & unchanged(s, h, "_tracing_enabled", "_trace", "_event_counter")
+    return clause
+
+
+def _span_iff_tracing(s):
+    n = len([r for r in (G("trace") if has_G("trace") else []) if r[0] == "InMemoryTraceRecorder.record"])
+    return (n == 1) if s.old(s.self)._tracing_enabled else (n == 0)     # (the code has branched on the flag already)
+
+
+fn(EventHeap, "pop", returns=Ref(Event), uses=[(InMemoryTraceRecorder, "record")],
+   modifies=list(_C01_POP.modifies) + [_SPANS], requires=[lambda s: slen(s.self._heap) > 0],
+   ensures=list(_C01_POP.ensures) + [("tracing-touches-neither-the-event-nor-the-heap-configuration", _heap_tracing_frame(lambda s: s.result)),
+                                    ("one-span-iff-tracing", _span_iff_tracing)])
+fn(EventHeap, "_push_single", args={"event": Ref(Event)}, uses=[(InMemoryTraceRecorder, "record")],
+   ensures=[e for e in _C01_PUSH1.ensures] + [
+       ("tracing-touches-neither-the-event-nor-the-heap-configuration", _heap_tracing_frame(lambda s: s.event)),
+       ("keeps-heap-time", lambda s: unchanged(s, s.self, "_current_time")),
+       ("one-span-iff-tracing", _span_iff_tracing)])
+
+# =============================================================================== (keep last) the loop's callee contracts
+for _st in (_ST_NTA, _ST_NEP, _ST_CB):
+    _spec_mod.CONTRACTS[(SimulationControl, _st.name)] = _st
